@@ -46,7 +46,8 @@ class SymSeq:
 
     def map(self, f):
         src = self
-        return SymSeq(self.K, lambda q: f(src.at(q)), None, self.name + ".map")
+        # a mapped sequence iterated by a `for` statement is cut with the same invariant
+        return SymSeq(self.K, lambda q: f(src.at(q)), self.cut, self.name + ".map")
 
     def __bool__(self):
         return bool(SBool(alg.gt(self.K, 0)))
